@@ -12,6 +12,7 @@ import (
 	"time"
 
 	"github.com/zishang520/engine.io/v2/config"
+	"github.com/zishang520/engine.io/v2/engine"
 	"github.com/zishang520/engine.io/v2/types"
 	"pgregory.net/rapid"
 )
@@ -34,10 +35,13 @@ type c10Case struct {
 	B64      bool
 	Upgraded bool
 	Cut      int // wt: the frame reaches the server in two pieces, the first of this many bytes (0 = in one piece)
+	// Other: after this server was built the application changes the limit on its options object to this value
+	// and builds a second server from it (0 = no second server): every server keeps the limit it was built with
+	Other int64
 }
 
 func (c c10Case) String() string {
-	return fmt.Sprintf("{L=%d %s rev%d size=%d(%s) decl=%s packets=%d layout=%s frag=%d b64=%v upgraded=%v cut=%d}", c.L, c.Path, c.Rev, c.Size, c.SizeCls, c.Decl, c.Multi, c.Layout, c.Frag, c.B64, c.Upgraded, c.Cut)
+	return fmt.Sprintf("{L=%d %s rev%d size=%d(%s) decl=%s packets=%d layout=%s frag=%d b64=%v upgraded=%v cut=%d otherServerLimit=%d}", c.L, c.Path, c.Rev, c.Size, c.SizeCls, c.Decl, c.Multi, c.Layout, c.Frag, c.B64, c.Upgraded, c.Cut, c.Other)
 }
 
 func genC10(rt *rapid.T, known bool, col *Collector) c10Case {
@@ -49,6 +53,12 @@ func genC10(rt *rapid.T, known bool, col *Collector) c10Case {
 	c.Path = rapid.SampledFrom([]string{"polling", "polling", "jsonp", "ws", "ws", "wt", "wt"}).Draw(rt, "path")
 	// websocket/webtransport reached through an upgrade of a polling session instead of a direct handshake
 	c.Upgraded = (c.Path == "ws" || c.Path == "wt") && c.L >= 64 && rapid.IntRange(0, 2).Draw(rt, "upgraded") == 0
+	switch rapid.IntRange(0, 5).Draw(rt, "otherServer") {
+	case 0:
+		c.Other = c.L*10 + 1
+	case 1:
+		c.Other = c.L/2 + 1
+	}
 	c.Rev = 4
 	if (c.Path == "polling" || c.Path == "ws") && rapid.IntRange(0, 2).Draw(rt, "rev3") == 0 {
 		c.Rev = 3
@@ -146,6 +156,16 @@ func runC10(c c10Case) (fail string, stats map[string]bool) {
 	o.SetPingInterval(300 * time.Second)
 	w := NewWorld(o)
 	defer w.Teardown()
+	if c.Other > 0 {
+		// the application reuses its options object for a second server with another limit
+		stats["second-server-built-from-the-same-options-object"] = true
+		o.SetMaxHttpBufferSize(c.Other)
+		other := engine.NewServer(o)
+		defer other.Close()
+		if got := w.Srv.Opts().MaxHttpBufferSize(); got != c.L {
+			return fmt.Sprintf("a second server was built from the application's options object after its limit had been changed to %d: the first server's limit is now %d, it was built with %d", c.Other, got, c.L), stats
+		}
+	}
 	// the canary needs room for its own one-byte message: "4c" is 2 bytes
 	var canary *c10Canary
 	if c.L >= 2 {
@@ -441,7 +461,7 @@ func TestC10MaxPayload(t *testing.T) {
 			rt.Fatalf("%v: %s", c, clipStr(res.Leak, 1500))
 		}
 	})
-	col.RequireClasses(t, "413", "delivered", "connection-terminated", "header-only", "fragmented", "within-1-of-limit", "path.polling", "path.jsonp", "path.ws", "path.wt", "decl.lying-big", "decl.lying-small", "after-upgrade", "frame-header-split-in-transit")
+	col.RequireClasses(t, "413", "delivered", "connection-terminated", "header-only", "fragmented", "within-1-of-limit", "path.polling", "path.jsonp", "path.ws", "path.wt", "decl.lying-big", "decl.lying-small", "after-upgrade", "frame-header-split-in-transit", "second-server-built-from-the-same-options-object")
 }
 
 func TestC10ChunkedFinding(t *testing.T) {
